@@ -28,7 +28,15 @@ From NoKV Require Import Base.Sched Model.SchedLib.
 Import ListNotations.
 Local Open Scope N_scope.
 
-Inductive op := Begin (i : N) | Done (i : N) | Wait (i : N).
+(** [Begin]/[Done]/[Wait] are API calls (the harness has a yield point before each call).
+    [BeginMany [a; b; c]] is the op list [BeginF a; BeginC b; BeginL c]: first part (entered like a
+    call, counts [a]), continuation parts (entered directly from the previous part's tryAdvance,
+    no yield point in between), last part (counts [c], then setLastIndex c); a singleton is
+    [Begin].  [DoneMany [a; b]] is [Done a; DoneC b].  Zero indices are not modelled inside a
+    batch (addIndex returns before its first yield point; the harness does not generate them). *)
+Inductive op := Begin (i : N) | Done (i : N) | Wait (i : N)
+              | BeginF (i : N) | BeginC (i : N) | BeginL (i : N) | DoneC (i : N).
+Inductive okind := KBegin | KDone | KWait.
 
 Inductive who := ForAdd | ForAdv (next : N).
 
@@ -113,16 +121,26 @@ Section Variant.
         t {| th_ops := ops; th_pc := p |}.
 
   (** the operation at the head of [ops] is finished *)
+  Definition op_kind (o : op) : okind :=
+    match o with
+    | Begin _ | BeginF _ | BeginC _ | BeginL _ => KBegin
+    | Done _ | DoneC _ => KDone
+    | Wait _ => KWait
+    end.
+  Definition op_index (o : op) : N :=
+    match o with Begin i | Done i | Wait i | BeginF i | BeginC i | BeginL i | DoneC i => i end.
+  Definition op_delta (o : op) : Z := match op_kind o with KBegin => 1%Z | KDone => (-1)%Z | KWait => 0%Z end.
+  (** publishes lastIndex after counting *)
+  Definition is_begin (o : op) : bool := match o with Begin _ | BeginL _ => true | _ => false end.
+  (** continuation of a batch: entered without a yield point of its own *)
+  Definition no_start (o : op) : bool := match o with BeginC _ | BeginL _ | DoneC _ => true | _ => false end.
+
   Definition next_op_pc (ops : list op) : list op * pc :=
     match ops with
     | [] => ([], PFin)
     | _ :: [] => ([], PFin)
-    | _ :: r => (r, PStart)
+    | _ :: ((n :: _) as r) => if no_start n then (r, EWLoad ForAdd) else (r, PStart)
     end.
-
-  Definition op_index (o : op) : N := match o with Begin i | Done i | Wait i => i end.
-  Definition op_delta (o : op) : Z := match o with Begin _ => 1%Z | Done _ => (-1)%Z | Wait _ => 0%Z end.
-  Definition is_begin (o : op) : bool := match o with Begin _ => true | _ => false end.
 
   (** pc after addIndex returned / after setLastIndex returned, for operation [o] *)
   Definition after_add (ops : list op) (o : op) : list op * pc :=
@@ -144,8 +162,8 @@ Section Variant.
     | PStart =>
         Some (to g t match o with
                      | Begin _ => if fixed then add_start ops o else (ops, SLLoad)
-                     | Done _ => add_start ops o
                      | Wait _ => (ops, WFast)
+                     | _ => add_start ops o
                      end)
     | SLLoad => if i <=? g_last g then Some (to g t (after_sl ops o)) else same (SLCas (g_last g))
     | SLCas cur =>
@@ -198,20 +216,20 @@ Section Variant.
                     else g_wins g in
         let gh := g_ghost g in
         let tracked :=
-          match o with
-          | Begin _ =>
+          match op_kind o with
+          | KBegin =>
               if fixed then
                 if g_last g <? i
                 then {| gh_tracked := (i, t) :: gh_tracked gh; gh_untimely := gh_untimely gh; gh_stray := gh_stray gh |}
                 else {| gh_tracked := gh_tracked gh; gh_untimely := (i, t) :: gh_untimely gh; gh_stray := gh_stray gh |}
               else gh
-          | Done _ =>
+          | KDone =>
               if has_waiter i t (gh_tracked gh)
               then {| gh_tracked := remove_pair i t (gh_tracked gh); gh_untimely := gh_untimely gh; gh_stray := gh_stray gh |}
               else if has_waiter i t (gh_untimely gh)
               then {| gh_tracked := gh_tracked gh; gh_untimely := remove_pair i t (gh_untimely gh); gh_stray := gh_stray gh |}
               else {| gh_tracked := gh_tracked gh; gh_untimely := gh_untimely gh; gh_stray := true |}
-          | Wait _ => gh
+          | KWait => gh
           end in
         Some (upd g (g_done g) (g_last g) wins (g_cur g) (g_mu g) (g_waiters g) tracked (g_waitret g)
                   t {| th_ops := ops; th_pc := TADone |})
